@@ -556,6 +556,7 @@ def applyStd (f : String) (args : List JVal) : Option JVal :=
   | "size", [.arr xs] => some (.int xs.length)
   | "size", [.obj kvs] => some (.int kvs.length)
   | "in", [.str k, .obj kvs] => some (.bool (JVal.lookup k kvs).isSome)
+  | "at0", [.arr (x :: _)] => some x
   | _, _ => none
 
 mutual
